@@ -425,6 +425,25 @@ pub fn generate(args: &Args) -> Vec<String> {
     srcs
 }
 
+// ---------- the `view!` proc-macro itself, applied at compile time (the classifier above drives the code generator
+// directly; what the macro ENTRY POINT does with an invocation is only visible through an expansion): a handful of
+// invocations around one interpolation, rendered on the server in hydration mode, where a reactive closure leaves
+// markers (`<!--/-->…<!--/-->`, or `<!--t-->…<!-->` for a String) and a static value leaves none
+fn macro_sites() -> Vec<(&'static str, &'static str, fn() -> String)> {
+    use sycamore::prelude::*;
+    fn twice(x: i32) -> i32 { x * 2 }
+    vec![
+        ("the whole invocation is one interpolation", "count.get()", || sycamore::web::render_to_string(|| { let count = create_signal(7); view! { (count.get()) } })),
+        ("one interpolation, a function call", "twice(n)", || sycamore::web::render_to_string(|| { let n = 3; view! { (twice(n)) } })),
+        ("one interpolation, a macro", "format!(\"{}\", n)", || sycamore::web::render_to_string(|| { let n = 3; view! { (format!("{}", n)) } })),
+        ("interpolation followed by text", "count.get()", || sycamore::web::render_to_string(|| { let count = create_signal(7); view! { (count.get()) "!" } })),
+        ("interpolation inside an element", "count.get()", || sycamore::web::render_to_string(|| { let count = create_signal(7); view! { p { (count.get()) } } })),
+        ("two interpolations", "count.get()", || sycamore::web::render_to_string(|| { let count = create_signal(7); view! { (count.get()) (count.get()) } })),
+        ("one interpolation, a literal", "7", || sycamore::web::render_to_string(|| view! { (7) })),
+        ("one interpolation, a path", "n", || sycamore::web::render_to_string(|| { let n = 7; view! { (n) } })),
+    ]
+}
+
 pub fn run(args: &Args) {
     let mut sink = Sink::new(&args.out, "isdyn");
     // corpus / replay files for this engine hold SOURCE TEXT lines prefixed with `isdyn src `
@@ -447,6 +466,24 @@ pub fn run(args: &Args) {
                 side.push('\n');
                 sink.case(&case, &obs, verdict, nt);
             }
+        }
+    }
+    if !only {
+        for (site, src, render) in macro_sites() {
+            let e: Expr = syn::parse_str(src).expect("macro site source");
+            let ce = contains_eval(&e);
+            let (obs, verdict) = match catch(render) {
+                Ok(html) => {
+                    let dynamic = html.contains("<!--/-->") || html.contains("<!--t-->");
+                    (if dynamic { "dyn" } else { "static" }.to_string(),
+                     if ce && !dynamic { Some(format!("[static-with-eval] view! expansion ({site}): `{src}` contains an evaluation outside closures but the expansion holds no reactive closure (server output `{html}`)")) } else { None })
+                }
+                Err(m) => ("panic".into(), Some(format!("[codegen-panic] view! expansion ({site}) panicked when rendered: {m}"))),
+            };
+            side += src;
+            side.push('\n');
+            sink.count("macro-expansion-site");
+            sink.case(&format!("isdyn classify {}", ex(&e)), &obs, verdict, true);
         }
     }
     sink.note("generated_sources_rejected_by_syn", unparsable);
